@@ -91,3 +91,6 @@ fn cli_equals_api() {
     kani::cover!(glr, "GLR chosen on the command line");
     kani::cover!(!glr, "LR chosen on the command line");
 }
+
+// Concrete playback (./check <id> --replay): Kani's generated unit test is written to this file, which is empty otherwise.
+include!("/verif/build/gen/playback_compiler_main.rs");
